@@ -1,6 +1,7 @@
 package props
 
 import (
+	"fmt"
 	"go/token"
 	"go/types"
 	"golang.org/x/tools/go/ssa"
@@ -202,6 +203,38 @@ var notTextEntries = map[string][]string{
 // back no text (a formatter's buffer is not an input): a parsing, validating or decoding entry point this checker
 // was not written against. They join the entry set of C17 and C18.
 func lateTextEntries(e *Env, pkg string) []*ssa.Function {
+	return lateEntries(e, pkg, "")
+}
+
+// lateValueEntries: the same search for entry points that cannot refuse — a text in, a value of the package's type
+// `yields` out, no error result (`MustParse(s string) Date`).
+func lateValueEntries(e *Env, pkg, yields string) []*ssa.Function {
+	return lateEntries(e, pkg, yields)
+}
+
+// yieldsType: the function returns a value (or pointer) of the package's named type, or is a method on its pointer.
+func yieldsType(f *ssa.Function, name string) bool {
+	is := func(t types.Type) bool {
+		if p, ok := t.(*types.Pointer); ok {
+			t = p.Elem()
+		}
+		n, ok := t.(*types.Named)
+		return ok && n.Obj().Name() == name && f.Pkg != nil && n.Obj().Pkg() == f.Pkg.Pkg
+	}
+	for i := 0; i < f.Signature.Results().Len(); i++ {
+		if is(f.Signature.Results().At(i).Type()) {
+			return true
+		}
+	}
+	if r := f.Signature.Recv(); r != nil {
+		if _, ptr := r.Type().(*types.Pointer); ptr && is(r.Type()) {
+			return true
+		}
+	}
+	return false
+}
+
+func lateEntries(e *Env, pkg, yields string) []*ssa.Function {
 	sp := e.P.ByName[pkg]
 	if sp == nil {
 		return nil
@@ -233,7 +266,11 @@ func lateTextEntries(e *Env, pkg string) []*ssa.Function {
 			return false
 		}
 		res := f.Signature.Results()
-		if res.Len() == 0 || !types.Identical(res.At(res.Len()-1).Type(), types.Universe.Lookup("error").Type()) {
+		hasErr := res.Len() > 0 && types.Identical(res.At(res.Len()-1).Type(), types.Universe.Lookup("error").Type())
+		if yields == "" && !hasErr {
+			return false
+		}
+		if yields != "" && (hasErr || f.Signature.Recv() != nil || !yieldsType(f, yields)) {
 			return false
 		}
 		for i := 0; i < res.Len(); i++ {
@@ -816,7 +853,7 @@ func knownNilAt(v ssa.Value, blk *ssa.BasicBlock) bool {
 // each of its text parameters unchanged to a recorded entry point, a text method of the value type or the
 // package-level Parser, in one call whose value it returns; nothing else receives the text. One obligation per late
 // entry, none on today's tree.
-func ruleLateEntriesDelegate(e *Env, rule, pkg string) {
+func ruleLateEntriesDelegate(e *Env, rule, pkg string, yields ...string) {
 	guarded := map[*ssa.Function]bool{}
 	for _, n := range parserEntries[pkg] {
 		if f := e.F(pkg, n); f != nil {
@@ -831,12 +868,51 @@ func ruleLateEntriesDelegate(e *Env, rule, pkg string) {
 		}
 	}
 	parserVar := e.V(pkg, "Parser")
-	for _, f := range lateTextEntries(e, pkg) {
+	entries := lateTextEntries(e, pkg)
+	if len(yields) == 1 {
+		// an input path of the value type: what takes a text and yields the value, whether or not it can refuse
+		var keep []*ssa.Function
+		for _, f := range entries {
+			if yieldsType(f, yields[0]) {
+				keep = append(keep, f)
+			}
+		}
+		entries = append(keep, lateValueEntries(e, pkg, yields[0])...)
+	}
+	for _, f := range entries {
 		site := flow.FnName(f)
 		bad := ""
 		for _, pi := range textParamIndices(f) {
 			in := f.Params[pi]
 			delegs := 0
+			// the text itself is only handed on: the entry does not measure, index or compare it (a pre-check of its
+			// own decides which texts are accepted before the recorded path sees them)
+			var uses func(v ssa.Value, depth int)
+			uses = func(v ssa.Value, depth int) {
+				if v.Referrers() == nil || depth > 4 {
+					return
+				}
+				for _, r := range *v.Referrers() {
+					switch y := r.(type) {
+					case *ssa.DebugRef:
+					case ssa.CallInstruction:
+						if bi, isB := y.Common().Value.(*ssa.Builtin); isB {
+							bad = "examines its text itself (" + bi.Name() + ")"
+						}
+					case *ssa.Convert:
+						uses(y, depth+1)
+					case *ssa.ChangeType:
+						uses(y, depth+1)
+					case *ssa.MakeInterface:
+						uses(y, depth+1)
+					case *ssa.Phi:
+						uses(y, depth+1)
+					default:
+						bad = fmt.Sprintf("examines its text itself (%T)", r)
+					}
+				}
+			}
+			uses(in, 0)
 			for _, b := range f.Blocks {
 				for _, ins := range b.Instrs {
 					ci, ok := ins.(ssa.CallInstruction)
@@ -856,11 +932,45 @@ func ruleLateEntriesDelegate(e *Env, rule, pkg string) {
 					if !carries {
 						continue
 					}
-					if bi, isB := cc.Value.(*ssa.Builtin); isB && bi.Name() == "len" {
-						continue
+					if _, isB := cc.Value.(*ssa.Builtin); isB {
+						continue // reported above
 					}
 					g := e.C.StaticCallee(cc)
+					// the recorded path's result is what the entry returns, as it came
+					asItCame := func() bool {
+						v := ci.Value()
+						if v == nil || v.Referrers() == nil {
+							return false
+						}
+						var ok func(x ssa.Value) bool
+						ok = func(x ssa.Value) bool {
+							for _, r := range *x.Referrers() {
+								switch y := r.(type) {
+								case *ssa.DebugRef, *ssa.Return:
+								case *ssa.BinOp:
+									// the error compared with nil (`if err != nil { panic(err) }`)
+									if !types.Identical(x.Type(), types.Universe.Lookup("error").Type()) {
+										return false
+									}
+								case *ssa.MakeInterface, *ssa.ChangeInterface, *ssa.Panic:
+									if !types.Identical(x.Type(), types.Universe.Lookup("error").Type()) {
+										return false
+									}
+								case *ssa.Extract:
+									if !ok(y) {
+										return false
+									}
+								default:
+									return false
+								}
+							}
+							return true
+						}
+						return ok(v)
+					}
 					switch {
+					case (g != nil && guarded[flow.Origin(g)] || g == nil && parserVar != nil && isLoadOf(cc.Value, parserVar)) && len(yields) == 1 && !asItCame():
+						bad = "does something with the recorded input path's result before returning it"
 					case g != nil && guarded[flow.Origin(g)]:
 						delegs++
 					case g == nil && parserVar != nil && isLoadOf(cc.Value, parserVar):
